@@ -49,6 +49,10 @@ const SIGMA: &[&str] = &[
     "\"\\u{110000}\"",
     "\"\\u{é}\"",
     "\"\\ué\"",
+    // line continuation (backslash newline) followed by ASCII / multi-byte whitespace
+    "\"a\\\n b\"",
+    "\"a\\\n\u{a0}b\"",
+    "\"é\\\n\u{3000}\u{2003}{{ x }}\"",
     // templates: char-counted spans (`StringLiteralToken::template`)
     "\"{{ x }}\"",
     "\"é{{ x }}\"",
@@ -474,6 +478,31 @@ fn typed_config() -> CompileConfig {
 
 const ENVS: [&str; 2] = ["default", "typed"];
 
+/// C04 reuses this enumeration: in C04 mode a case only looks for panics (compile, render, run of the
+/// accepted program on an empty event) and label positions are not judged.
+pub static C04_MODE: std::sync::atomic::AtomicBool = std::sync::atomic::AtomicBool::new(false);
+
+fn c04_mode() -> bool {
+    C04_MODE.load(std::sync::atomic::Ordering::Relaxed)
+}
+
+/// C04 mode: run an accepted program on an empty event; Some(panic text) if it panics.
+fn c04_run_accepted(src: &str, env: &str) -> Option<String> {
+    let program = FNS.with(|fns| {
+        guarded(|| {
+            if env == "typed" {
+                TYPED.with(|e| vrlx::compile_ext(src, fns, e, typed_config()))
+            } else {
+                vrlx::compile_ext(src, fns, &ExternalEnv::default(), CompileConfig::default())
+            }
+        })
+    });
+    let program = program.ok()?.ok()?.program;
+    let mut t = vrlx::target(vrlx::empty_object(), vrlx::empty_object());
+    let tz = vrlx::utc();
+    guarded(|| vrlx::run_runtime(&program, &mut t, &tz)).err()
+}
+
 /// (diagnostics reported, accepted?) or Err(panic text).
 fn compile(src: &str, env: &str) -> Result<(DiagnosticList, bool), String> {
     FNS.with(|fns| {
@@ -694,6 +723,10 @@ fn case_opts(w: &J, colored_too: bool, do_shrink: bool) -> CaseResult {
                 // a compiler panic reports no diagnostics: C04's business, only counted here
                 res.counters.push(("compile_panicked", 1));
                 classes.push("compile-panic".into());
+                if c04_mode() && !p.starts_with("capacity overflow") {
+                    res.nontrivial = true;
+                    res.violations.push(Violation::new("C04.compile-panic", json!({"src": src, "env": env}), "compiling any source text does not panic", p.clone()));
+                }
                 if verbose() {
                     eprintln!("[{env}] compile panicked: {p}");
                 }
@@ -702,6 +735,27 @@ fn case_opts(w: &J, colored_too: bool, do_shrink: bool) -> CaseResult {
         };
         res.counters.push(("compilations", 1));
         res.counters.push((if accepted { "accepted" } else { "rejected" }, 1));
+        if c04_mode() {
+            res.nontrivial = true;
+            if let Err(e) = render(src, &diags, false) {
+                if e.contains("panicked") {
+                    res.violations.push(Violation::new("C04.render-panic", json!({"src": src, "env": env}), "rendering the diagnostics does not panic", e));
+                }
+            }
+            if accepted {
+                res.counters.push(("accepted_programs_run", 1));
+                if let Some(p) = c04_run_accepted(src, env) {
+                    if !p.starts_with("capacity overflow") {
+                        res.violations.push(Violation::new("C04.run-panic", json!({"src": src, "env": env}), "running an accepted program does not panic", p));
+                    }
+                }
+            }
+            classes.push((if accepted { "ok" } else { "err" }).to_string());
+            if !accepted && diags.iter().all(|d| (200..300).contains(&d.code)) && only_env.is_none() {
+                break;
+            }
+            continue;
+        }
         let mut codes: BTreeSet<usize> = BTreeSet::new();
         let mut labels = 0u64;
         let mut multibyte_before_label = 0u64;
@@ -818,7 +872,40 @@ fn seq_count(sigma: usize, k: u32, joiners: usize) -> u64 {
 const BOTH: &[&str] = &["", " "];
 
 pub fn run(tier: Tier) -> Report {
-    let mut rep = Report::new("C33", tier, "exploration");
+    run_with(Report::new("C33", tier, "exploration"), tier)
+}
+
+/// C04 only: programs with extreme integer / index / float literals in every position that does arithmetic on them.
+pub fn c04_extreme_texts() -> Vec<String> {
+    let ints = [
+        "0", "1", "-1", "9223372036854775807", "-9223372036854775808", "9223372036854775808", "-9223372036854775809", "18446744073709551616", "99999999999999999999999999",
+        "-0", "00", "4294967296", "-2147483649",
+    ];
+    let floats = ["0.0", "-0.0", "1.5", "179769313486231570000000000000000000000000000000000000000000000000000000000000000000000000000000000000000000000000000000000000000000000000000000000000000000000000000000000000000000000000000000000000000000000000000000000000000000000000000000000000000000000000000000000000000000000000000000000000000000000000000.0", "99999999999999999999999999999999999999999999999999999999999999999999999999999999999999999999999999999999999999999999999999999999999999999999999999999999999999999999999999999999999999999999999999999999999999999999999999999999999999999999999999999999999999999999999999999999999999999999999999999999999999999999999999999999.0", "0.000000000000000000000000000000000000000000000000000000000000000000000000000000000000000000000000000000000000000000000000000000000000000000000000000000000000000000000000000000000000000000000000000000000000000000000000000000000000000000000000000000000000000000000000000000000000000000000000000000000000000000000000000000000000000000001", "1.", ".5"];
+    let int_templates = [
+        ".a[{}]", "x = .a[{}]", ".a[{}] = 1", "del(.a[{}])", "x = [1, 2][{}]", "x = [1, 2]; x[{}] = 0; x", "%m[{}]", ".a[{}].b[{}]", "x = {}", "x = {} + 1", "x = {} - 1", "x = -({})", "x = {} * {}",
+        "x = {} * 2", "x = 1 / {}", "x = 10 / ({} - {})", "x = mod(5, {})", "x = slice(\"ab\", {})", "x = slice([1, 2], 0, {})", "x = abs({})", "x = format_int!({}, 2)", "x = to_float({})",
+        "x = from_unix_timestamp!({})", "x = \"ab\" * {}", "x = truncate(\"abc\", {})", "x = chunks(\"abc\", {})", "x = [1, 2, 3][{}] ?? 0", "x = {{\"a\": [1]}}.a[{}]", "exists(.a[{}])",
+        "x = to_int({}) == {}", "if {} > {} {{ 1 }} else {{ 2 }}", "x = format_number({}, scale: 2)", "x = round(1.5, precision: {})", "x = 1.5 * {}", "x = push([1], {})[{}]",
+    ];
+    let float_templates = ["x = {}", "x = {} + {}", "x = {} * {}", "x = 1.0 / {}", "x = {} / {}", "x = to_int({})", "x = round({})", "x = ceil({}, precision: 2)", "x = format_number({})", "x = to_string({})", "x = {} == {}", "x = mod({}, 2)", "x = abs(-({}))", "x = floor({} * {})"];
+    let mut out = Vec::new();
+    for t in int_templates {
+        for i in ints {
+            out.push(t.replace("{{", "\u{1}").replace("}}", "\u{2}").replace("{}", i).replace('\u{1}', "{").replace('\u{2}', "}"));
+        }
+    }
+    for t in float_templates {
+        for f in floats {
+            out.push(t.replace("{}", f));
+        }
+    }
+    out.sort();
+    out.dedup();
+    out
+}
+
+pub fn run_with(mut rep: Report, tier: Tier) -> Report {
     rep.set(
         "rule",
         "cases = source texts: (seq) all sequences of ≤k tokens over Σ_tok joined by \"\" and \" \"; (mut1) all 1-token \
